@@ -1,24 +1,24 @@
-\* as is: two Peers(ctx) callers against one worker and Discard
-SPECIFICATION Spec
+\* random behaviours, limit 1 (more rounds, removals and re-discovery), replayed on the real Discovery
+SPECIFICATION SpecB
 CONSTANTS
   Peers = {"p1", "p2"}
   Self = "self"
   Limit = 1
   Workers = {"w1"}
-  Callers = {"c1", "c2"}
+  Callers = {"c1"}
   Delay = 1
-  MaxRounds = 2
-  MaxDrops = 1
-  MaxInbound = 0
-  MaxFail = 0
-  MaxCalls = 2
+  MaxRounds = 8
+  MaxDrops = 4
+  MaxInbound = 2
+  MaxFail = 2
+  MaxCalls = 3
   MaxApi = 0
-  WithGC = TRUE
+  WithGC = FALSE
   AtomicPeers = FALSE
   SignedWant = FALSE
   Serialized = FALSE
   DirectAPI = FALSE
+  MaxLen = 70
 CHECK_DEADLOCK FALSE
-VIEW state
+ACTION_CONSTRAINT CoarseSchedule
 INVARIANTS TypeOK SizeBound ReportedExactlyOnce ViewBookkeeping PeersResult
-PROPERTIES ContactLeavesBackoff GCInvisible
